@@ -86,12 +86,14 @@ theorem open_outcome_table (db : Db ρ) :
 
 /-- what the property demands of the result `r` of opening `db` -/
 def Safe (db : Db ρ) (r : Outcome × Db ρ) : Prop :=
-  (r.1 = .ok → r.2.uv = facts.schemaVersion ∧ tablesPresent r.2 ∧ rowsKept db r.2 ∧ (complete r.2 ∨ db.uv = latest facts)) ∧
+  (r.1 = .ok → r.2.uv = facts.schemaVersion ∧ tablesPresent r.2 ∧ rowsKept db r.2 ∧ (complete r.2 ∨ db.uv = latest facts)
+      ∧ db.uv ≤ r.2.uv) ∧
   (r.1 = .refuse → r.2 = db)
 
 /-- C24 over every database (any `user_version : Int`, any of the 2^5 object subsets, any rows): a
 successful open ends at the current version, all tables present, every pre-existing row in place, and
-the schema complete unless the file was already stamped current; a refused open changes nothing. -/
+the schema complete unless the file was already stamped current, and the version stamp never lowered
+(so a file from a newer version is never opened); a refused open changes nothing. -/
 theorem open_safe (db : Db ρ) : Safe db (openDb facts db) := by
   unfold Safe; rw [latest_facts]
   by_cases h1 : db.uv = 1
@@ -109,7 +111,8 @@ theorem open_safe (db : Db ρ) : Safe db (openDb facts db) := by
       · have hn : db.uv < 0 := by omega
         have hm := migrate_neg db hn
         unfold openDb; rw [hm]
-        c24_split db <;> c24_simp <;> (try (intro o; cases o <;> simp [*]))
+        c24_split db <;> c24_simp <;> (try refine ⟨?_, by omega⟩) <;> (try omega) <;>
+          (try (intro o; cases o <;> simp [*]))
 
 /-- A refused open leaves the database exactly as it was (version, schema, rows). In particular the
 legacy stamp (`user_version := 1`, written outside a transaction) is never followed by a refusal. -/
@@ -123,6 +126,17 @@ theorem open_ok_preserves (db : Db ρ) (h : (openDb facts db).1 = .ok) :
       rowsKept db (openDb facts db).2 :=
   let ⟨a, b, c, _⟩ := (open_safe db).1 h; ⟨a, b, c⟩
 
+/-- A database from a newer version (`user_version` above the latest embedded migration) is refused and
+left exactly as it was, whatever objects and rows it contains — in particular when it carries the
+complete v1 schema and so *looks like* a legacy database to `schemaLooksLikeV1`. -/
+theorem open_newer_refused (db : Db ρ) (h : latest facts < db.uv) : openDb facts db = (.refuse, db) := by
+  rw [latest_facts] at h
+  unfold openDb; rw [migrate_newer db h]
+
+/-- A successful open never lowers `user_version`: the stamp only moves forward, by migrations. -/
+theorem open_never_downgrades (db : Db ρ) (h : (openDb facts db).1 = .ok) : db.uv ≤ (openDb facts db).2.uv :=
+  let ⟨_, _, _, _, e⟩ := (open_safe db).1 h; e
+
 /-- FULL statement (DESIGN `open_safe`): `ok → complete ∧ uv = current ∧ rows kept; refuse → unchanged`
 for every database.  It is FALSE of the code for exactly one family (`open_ok_incomplete_witness`): a
 database already stamped `user_version = 1` whose `idx_hash` is missing is opened as-is (`migrate`
@@ -133,7 +147,7 @@ theorem open_schema_complete_partial (db : Db ρ) (hne : db.uv ≠ latest facts)
         complete (openDb facts db).2 ∧ (openDb facts db).2.uv = facts.schemaVersion ∧ rowsKept db (openDb facts db).2) ∧
     ((openDb facts db).1 = .refuse → (openDb facts db).2 = db) := by
   refine ⟨fun h => ?_, open_refuse_unchanged db⟩
-  obtain ⟨a, _, c, d⟩ := (open_safe db).1 h
+  obtain ⟨a, _, c, d, _⟩ := (open_safe db).1 h
   exact ⟨d.resolve_right hne, a, c⟩
 
 /-- The exception is real: stamped-current database, four tables, no index → opened, index still missing. -/
@@ -149,6 +163,8 @@ def legacyDb : Db Nat := { uv := 0, tab := fun o => match o with | .simpleEntrie
 def partialDb : Db Nat := { uv := 0, tab := fun o => match o with | .simpleEntries => some [1] | _ => none }
 def stampedMissingTable : Db Nat := { uv := 1, tab := fun o => match o with | .leaseEntries => none | _ => some [5] }
 def newerDb : Db Nat := { uv := 2, tab := fun _ => some [] }
+/-- a newer-version file as it really looks: complete v1 schema, rows -/
+def newerFullDb : Db Nat := { uv := 2, tab := fun o => match o with | .idxHash => some [] | _ => some [4, 5] }
 
 example : (openDb facts freshDb).1 = .ok ∧ (openDb facts freshDb).2.uv = 1 ∧
     (Obj.all.all (present (openDb facts freshDb).2)) = true := by decide
@@ -158,5 +174,8 @@ example : (openDb facts partialDb).1 = .refuse := by decide
 example : (openDb facts stampedMissingTable).1 = .refuse := by decide
 example : (openDb facts newerDb).1 = .refuse := by decide
 example : legacyDb.uv ≠ latest facts := by decide
+example : latest facts < newerFullDb.uv ∧ looksLikeV1 facts newerFullDb = true := by decide
+example : (openDb facts newerFullDb).1 = .refuse ∧ (openDb facts newerFullDb).2.uv = 2 := by decide
+example : (openDb facts legacyDb).1 = .ok ∧ legacyDb.uv < (openDb facts legacyDb).2.uv := by decide
 
 end Specter.C24
